@@ -47,14 +47,14 @@ def plan(tier, seed):
     q = tier == 'quick'
     specs = []
     for fam in families.FAMILY_NAMES:
-        specs.append(dict(label=fam, family=fam, cases=2500 if q else 25000,
+        specs.append(dict(label=fam, family=fam, cases=2500 if q else 300000,
                           seed=seed, tier=tier, variant='mon',
-                          timeout=900 if q else 3000))
+                          timeout=900 if q else 7200))
     for fam in (['OO', 'II', 'fs'] if q else ['OO', 'II', 'fs', 'LF', 'QO',
                                                'UU', 'OI']):
         specs.append(dict(label=fam + '-asan', family=fam,
-                          cases=600 if q else 6000, seed=seed + 11, tier=tier,
-                          variant='asan', timeout=1500 if q else 3000))
+                          cases=600 if q else 30000, seed=seed + 11, tier=tier,
+                          variant='asan', timeout=1500 if q else 7200))
     return specs
 
 
